@@ -152,7 +152,8 @@ PROPS["C14"] = {
 }
 
 PROPS["C11"] = {
-    "components": [Sched("cfg", 4000, 150000), Seq("consumers", 400, 20000, label="diag", crash_is_violation=True)],
+    "components": [Sched("cfg", 4000, 150000), Seq("consumers", 400, 20000, label="diag", crash_is_violation=True), RaceRun()],
+    "generated": ["lockfacts"],
     "rule": "cfg: one Execute (success / failure / context-error outcome, live or cancelled caller context, closed or open circuit) races one SetConfigThreadSafe changing exactly one setting (run limit, timeout, fallback limit, ForceOpen, ForcedClosed, Disabled, Fallback.Disabled, IgnoreInterrupts; 23 old->new pairs); the observed outcome must equal the outcome under the old or under the new configuration; distinct by (configuration, schedule)",
     "trusted_base": TB_COMMON + TB_SCHED,
     "assumptions": ["partial by nature: the Go memory model, fairness and network-facing diagnostics are outside the model"],
